@@ -16,11 +16,11 @@ from rv import common as C
 from rv import lpformat
 from rv import rawsolve
 
-N_CASES = {'quick': 800, 'thorough': 16000}
+N_CASES = {'quick': 2000, 'thorough': 16000}
 TIMEOUT = {'quick': 1500, 'thorough': 6 * 3600}
 ANCHORS = ['lp:LinProg.lp_export', 'lp:LinProg.to_lp', 'socp:SOCProg.lp_export',
            'lp:LinProg.showlc', 'socp:SOCProg.showqc', 'gcp:GCProg.show', 'gcp:GCProg.showec']
-FLOORS = {'judged': {'quick': 550, 'thorough': 11000}, 'nontrivial': 60,
+FLOORS = {'judged': {'quick': 1375, 'thorough': 11000}, 'nontrivial': 60,
           'counters': {'gurobi_roundtrips': 150, 'show_tables': 300, 'show_tables_expcone': 10}}
 RULE = ('compiled LP/MILP/SOCP programs (all bound patterns, empty rows, binaries/integers with '
         'user bounds, robust counterparts) plus rescaled coefficients 1e-12..1e12, exact zeros '
